@@ -164,6 +164,15 @@ const CONTEXTS: &[Ctxt] = &[
     Ctxt { name: "range assignment rhs", tmpl: "xs := [7, 8, 9]; xs[0:1] = v; print(xs)\n", accept: &[K::List, K::Str] },
     Ctxt { name: "type function subject", tmpl: "print(v->type())\n", accept: &[K::Bool, K::Int, K::Str, K::List, K::Obj, K::UFn, K::BFn] },
     Ctxt { name: "len subject", tmpl: "print(v->len())\n", accept: &[K::Str] },
+    Ctxt { name: "parameter list pattern, empty body", tmpl: "fn g([p]) { }\ng(v)\nprint(\"called\")\n", accept: &[K::List] },
+    Ctxt { name: "parameter object pattern, empty body", tmpl: "fn g({a}) { }\ng(v)\nprint(\"called\")\n", accept: &[K::Obj] },
+    Ctxt { name: "anonymous parameter list pattern, empty body", tmpl: "g := fn ([p]) { }\ng(v)\nprint(\"called\")\n", accept: &[K::List] },
+    Ctxt { name: "method parameter object pattern, empty body", tmpl: "w := {\"m\": fn ({a}) { }}\nw.m(v)\nprint(\"called\")\n", accept: &[K::Obj] },
+    Ctxt { name: "for list target, empty body", tmpl: "for [i, [p]] in [v] { }\nprint(\"done\")\n", accept: &[K::List] },
+    Ctxt { name: "for object target, empty body", tmpl: "for [i, {a}] in [v] { }\nprint(\"done\")\n", accept: &[K::Obj] },
+    Ctxt { name: "for iterable, empty body", tmpl: "for e in v { }\nprint(\"done\")\n", accept: &[K::List, K::Str, K::Obj] },
+    Ctxt { name: "if condition, empty bodies", tmpl: "if v { } else { }\nprint(\"done\")\n", accept: &[K::Bool] },
+    Ctxt { name: "else-if condition, empty bodies", tmpl: "if false { } else if v { }\nprint(\"done\")\n", accept: &[K::Bool] },
 ];
 
 // tags
